@@ -177,6 +177,13 @@ def call_spec_fn(self, name, e, st):
             s2 = State(dict(st.env, self=v), st.heap, st.pc, st.next_ref, st.ghost, st.labels)
             zs.append(self.truth(self.ev1(parse_expr(inv), s2)[0], s2))
         return bool_val(z3.And(*zs) if zs else z3.BoolVal(True))
+    if name == "remap":     # remap(m, a, b): the map y -> (b if m[y] == a else m[y])
+        m, a, b = (self.ev1(x, st)[0] for x in e.args)
+        a, b = self.coerce(a, m.t.v, st), self.coerce(b, m.t.v, st)
+        y = fresh("y", m.t.k.sort())
+        new = fresh("remap", m.z.sort())
+        st.assume(z3.ForAll([y], z3.Select(new, y) == z3.If(z3.Select(m.z, y) == a.z, b.z, z3.Select(m.z, y))))
+        return Val(m.t, new)
     if name == "keys_are":     # keys_are(d, "a", "b", ...): the key set of d is exactly the listed strings
         d = self.ev1(e.args[0], st)[0]
         ks = [z3.StringVal(x.value) for x in e.args[1:]]
@@ -211,7 +218,7 @@ def _mentions(z, idset):
     return False
 
 
-SPEC_NAMES = {"keys_are", "wf", "last_result", "last_arg", "called_after", "old", "at", "result", "forall", "exists", "implies", "iff", "ite", "is_none", "val", "fresh", "same",
+SPEC_NAMES = {"remap", "keys_are", "wf", "last_result", "last_arg", "called_after", "old", "at", "result", "forall", "exists", "implies", "iff", "ite", "is_none", "val", "fresh", "same",
               "ssum"}
 
 
@@ -480,6 +487,20 @@ def call_builtin(self, name, args, kwargs, st, node):
     if name in ("max", "min") and any(isinstance(x, Unknown) or (isinstance(x, PyConst) and isinstance(x.v, float)) for x in a):
         yield Unknown(name), st
         return
+    if name in ("max", "min") and len(a) == 1 and not kwargs:
+        v0 = self.view_of(a[0], st)
+        n0 = simp(v0.length)
+        if z3.is_int_value(n0) and 1 <= n0.as_long() <= 4:
+            items = [v0.at(z3.IntVal(i)) for i in range(n0.as_long())]
+            if all(isinstance(x, PyTuple) and len(x.items) == 2 for x in items):
+                best = [self.as_int(items[0].items[0], st).z, self.as_int(items[0].items[1], st).z]
+                for it in items[1:]:
+                    p, q = self.as_int(it.items[0], st).z, self.as_int(it.items[1], st).z
+                    gt = z3.Or(p > best[0], z3.And(p == best[0], q > best[1]))
+                    take = gt if name == "max" else z3.Not(z3.Or(gt, z3.And(p == best[0], q == best[1])))
+                    best = [z3.If(take, p, best[0]), z3.If(take, q, best[1])]
+                yield PyTuple([int_val(best[0]), int_val(best[1])]), st
+                return
     if name in ("max", "min"):
         if len(a) >= 2:
             z = self.as_int(a[0], st).z
